@@ -297,8 +297,9 @@ pub(super) fn find_date_time(
                 i64::MAX,
             ];
 
-            // Sort transitions
-            let sorted = additional_transition_times.windows(2).all(|x| x[0] <= x[1]);
+            // Sort transitions. If all DST start and end times are equal in these years, their order is taken from the nearest year where they differ.
+            let all_equal = additional_transition_times.chunks_exact(2).all(|x| x[0] == x[1]);
+            let sorted = if all_equal { alternate_time.is_dst_start_first(year) } else { additional_transition_times.windows(2).all(|x| x[0] <= x[1]) };
 
             if !sorted {
                 for chunk in additional_transition_times.chunks_exact_mut(2) {
